@@ -432,3 +432,8 @@ Definition m_list_struct_rows (p : chunked) : res (list (option (list (list val)
 (* NestedExtensionArray(list-struct chunked array) *)
 Definition m_init_from_ls (sch : schema) (cs : list lsarr) : res chunked :=
   m_init {| ctype := sch; chunks := map m_transpose_ls cs |} false.
+
+(* ---------- the conversion of offered values (pa.array(value, from_pandas=True)) ---------- *)
+(* numpy arrays, python lists and numpy-backed pandas objects: NaN means "missing" and becomes null; Arrow arrays and
+   Arrow-backed pandas objects are taken as they are (NaN stays a value) *)
+Definition from_pandas (numpy_like : bool) (vs : list val) : list val := if numpy_like then map denan vs else vs.
